@@ -1251,6 +1251,11 @@ def c15_run(ctx, scale):
             body = b"".join(chunks)
             fr = struct.pack("<IHHHHI", 16 + len(body), 0xF1FA, 0xFFFF, 100, 0, len(chunks)) + body
             files.append((f"feat/late-chunk/{what}/{len(chunks)}", mk_header(1, 1, 1) + fr))
+    # an ICC colour profile whose data length is 0 / 1 / missing, in the first and in a later frame
+    for tail_name, tail in (("len0", struct.pack("<I", 0)), ("len1", struct.pack("<I", 1) + b"x"), ("nolen", b"")):
+        pc = mk_chunk(0x2007, struct.pack("<HHI", 2, 0, 0) + bytes(8) + tail)
+        files.append((f"feat/icc/{tail_name}/frame0", mk_header(1, 1, 1) + mk_frame([pc, mk_layer()])))
+        files.append((f"feat/icc/{tail_name}/frame1", mk_header(2, 1, 1) + mk_frame([mk_layer()]) + mk_frame([pc])))
     # an unsupported cel (unknown cel type, tilemap with 8 / 16 bits per tile) on a layer with the REFERENCE flag / hidden layer
     for lflags in (0x41, 0x40, 0x00, 0x43):
         lay = mk_chunk(0x2004, struct.pack("<HHHHHHBBH", lflags, 0, 0, 0, 0, 0, 255, 0, 0) + struct.pack("<H", 1) + b"R")
@@ -1791,6 +1796,21 @@ def c14_run(ctx, scale):
             rid = f"{pcid}|{tag}"
             reqs.append(f"SCHED {rid} {pb.hex()} {ev}")
             meta[rid] = (pcid, "same")
+    # files that would be refused (pixel ratio 2:1, colour depth 24; not a bad magic number, which the loader
+    # rejects as soon as it has those six bytes) read through a reader that fails
+    # inside the 128-byte header, after the offending field: the header was not delivered, so the I/O error is the result
+    for rn, (off, val) in (("ratio2x1", (34, bytes([2, 1]))), ("depth24", (12, bytes([24, 0])))):
+        cid0, b0 = base[0]
+        rb = b0[:off] + val + b0[off + len(val):]
+        rcid = f"{cid0}~refused-{rn}"
+        datas[rcid] = rb
+        for k in (off + len(val), 36, 40, 64, 127):
+            if k < off + len(val):
+                continue
+            for code, ev in ((3, "f3"), (0, "f0"), (6, "F6")):
+                rid = f"{rcid}|fail{code}@{k}"
+                reqs.append(f"SCHED {rid} {rb.hex()} {','.join(['d1'] * k + [ev])}")
+                meta[rid] = (rcid, f"io:{'UnexpectedEof' if code == 0 else code}")
     # truncated files through read_file: the same result (also the same error value) as the same
     # bytes from memory
     for cid, b in list(base):
@@ -2071,6 +2091,16 @@ def hostile_memory_inputs(ctx, scale):
     out.append(("wrapped/gzip", gzip.compress(inner, 9, mtime=0)))
     out.append(("wrapped/zlib", zlib.compress(inner, 9)))
     out.append(("wrapped/deflate", co.compress(inner) + co.flush()))
+    # an indexed deflate bomb whose pixels all use an index the palette does not have (refused; the refusal must stay small)
+    zb5 = zlib.compress(bytes([5]) * (4096 * 4096), 9)
+    pal1 = mk_chunk(0x2019, struct.pack("<III", 1, 0, 0) + bytes(8) + struct.pack("<HBBBB", 0, 1, 2, 3, 255))
+    out.append(("bomb-indexed-invalid/4096x4096", mk_header(1, 4, 4, 8) + mk_frame([pal1, mk_layer(), mk_chunk(0x2005, struct.pack("<HhhBH", 0, 0, 0, 255, 2) + bytes(7)
+                                                                                                 + struct.pack("<HH", 4096, 4096) + zb5)])))
+    # slice chunks declaring 4 Mi / 2^32-1 keys with data for one
+    for nk in (1 << 22, 0xFFFFFFFF, 65536):
+        for fl in (0, 1, 3):
+            sl = mk_chunk(0x2022, struct.pack("<III", nk, fl, 0) + struct.pack("<H", 1) + b"s" + struct.pack("<IiiII", 0, 0, 0, 1, 1) + bytes(24))
+            out.append((f"slice-keys-declared/{nk:x}/{fl}", mk_header(1, 4, 4) + mk_frame([mk_layer(), sl])))
     # many tags chunks each declaring 65535 tags
     tags = mk_chunk(0x2018, struct.pack("<H", 65535) + bytes(8))
     out.append(("tags-declared", mk_header(1, 4, 4) + mk_frame([mk_layer()] + [tags] * 50)))
@@ -2253,6 +2283,8 @@ def c07_run(ctx, scale):
                 last = b[fr[-1]:end]
                 for tn, tr in (("frame", last), ("fhdr", last[:10]), ("file", b), ("magic", bytes(4) + b"\xfa\xf1" + bytes(10))):
                     extra.append((cid[:-2] + f"-trail{tn}", b + tr))
+    # the hand-built well-formed corpus (redundant legacy chunks between entities and their user data, spare bytes, …)
+    extra += [(c + "-1", b) for c, b in vlib.verif_corpus_wf() if len(b) < 20000]
     if extra:
         m2, _ = vlib.run_model(vlib.load_lines(extra))
         cases.update(m2)
@@ -2764,6 +2796,14 @@ def c16_run(ctx, scale):
     # tilemap cels with unusual id masks / bits per tile, tilesets in every cross-reference shape (loadable or not:
     # the OUTCOME must not depend on the profile either)
     dfiles += [(c, b) for c, b in structure_cases() if c.startswith("xref/") and ("/tmm" in c or "/tmb" in c or c.endswith("/0"))][::2]
+    dfiles += [(c, b) for c, b in structure_cases() if c.startswith(("tsx/", "latetags/", "tags-overrun/", "tileset-ud/"))]
+    # a tileset whose declared pixel count passes 2^62 (tile count x width x height) over 160 bytes of data
+    import zlib as _zl
+    for cnt, tw, th in ((1574487853, 44797, 65384), (0xFFFFFFFF, 65535, 65535), (1 << 31, 1 << 15, 1 << 15)):
+        zz = _zl.compress(bytes(160))
+        for depth in (8, 16, 32):
+            tchunk = mk_chunk(0x2023, struct.pack("<IIIHHh", 0, 2, cnt, tw, th, 1) + bytes(14) + struct.pack("<H", 0) + struct.pack("<I", len(zz)) + zz)
+            dfiles.append((f"tshuge/{cnt:x}x{tw}x{th}/{depth}", mk_header(1, 2, 2, depth) + mk_frame([tchunk, mk_layer()])))
     dl = vlib.load_lines(dfiles)
     robs, _ = vlib.run_impl(dl, "release")
     for prof in ("dbg", "relchk"):
